@@ -2280,7 +2280,10 @@ func (f *fragment) importRoaring(ctx context.Context, data []byte, clear bool) e
 		f.rowCache.Add(rowID, nil)
 		if updateCache {
 			anyChanged = true
-			f.cache.BulkAdd(rowID, f.cache.Get(rowID)+uint64(changes))
+			// Recount from storage: the cached count is not a usable base,
+			// since the row may have been evicted or never admitted.
+			n := f.storage.CountRange(rowID*ShardWidth, (rowID+1)*ShardWidth)
+			f.cache.BulkAdd(rowID, n)
 		}
 	}
 	// we only set this if we need to update the cache
@@ -2586,6 +2589,12 @@ func (f *fragment) readStorageFromArchive(r io.Reader) error {
 	// Reopen storage.
 	if err := f.openStorage(true); err != nil {
 		return errors.Wrap(err, "opening")
+	}
+
+	// The row counts held in the cache describe the storage that was just
+	// replaced, so rebuild them from the new contents.
+	if err := f.openCache(); err != nil {
+		return errors.Wrap(err, "opening cache")
 	}
 
 	return nil
